@@ -1068,6 +1068,18 @@ void MatrixInversion(matrix *m, matrix *m_inv)
     }
 
     for(i = 0; i < m->row; i++){
+      /* partial pivoting: bring the largest entry of column i (rows i..n-1) to the diagonal */
+      size_t piv = i;
+      for(j = i+1; j < m->row; j++){
+        if(fabs(AI->data[j][i]) > fabs(AI->data[piv][i]))
+          piv = j;
+      }
+      if(piv != i){
+        double *row_tmp = AI->data[i];
+        AI->data[i] = AI->data[piv];
+        AI->data[piv] = row_tmp;
+      }
+
       for(j = 0; j < m->col; j++){
         if(i!=j){
           ratio = AI->data[j][i] / AI->data[i][i];
